@@ -45,7 +45,13 @@ func (p *BinaryProtocol) Skip(wireType proto.WireType, useNative bool) (err erro
 }
 
 // fast skip all elements in LIST/MAP
+// NOTICE: a packed list is walked as varints, use SkipAllElementsWithType if its elements may be fixed32/fixed64
 func (p *BinaryProtocol) SkipAllElements(fieldNumber proto.FieldNumber, ispacked bool) (size int, err error) {
+	return p.SkipAllElementsWithType(fieldNumber, ispacked, proto.VarintType)
+}
+
+// fast skip all elements in LIST/MAP, elemWireType is the wire type of the elements of a packed list
+func (p *BinaryProtocol) SkipAllElementsWithType(fieldNumber proto.FieldNumber, ispacked bool, elemWireType proto.WireType) (size int, err error) {
 	size = 0
 	if ispacked {
 		if _, _, _, err := p.ConsumeTag(); err != nil {
@@ -57,7 +63,7 @@ func (p *BinaryProtocol) SkipAllElements(fieldNumber proto.FieldNumber, ispacked
 		}
 		start := p.Read
 		for p.Read < start+int(bytelen) {
-			if _, err := p.ReadVarint(); err != nil {
+			if err := p.Skip(elemWireType, false); err != nil {
 				return -1, err
 			}
 			size++
